@@ -20,6 +20,7 @@ EXPLANATION = (
     "(3) __eq__ and __hash__ are defined together; str()/for_json delegate to isoformat. NOT decided: "
     "value equality of each inherited accessor with the native object (that is the C base class at run time)."
     " Also: DateTime.combine installs an explicit tzinfo and never forwards the None default to the native constructor; __format__ answers any spec containing '%' with strftime and the empty spec with str(); __sub__/__rsub__ normalise a native operand field-faithfully and in the right direction."
+    ' As built (added): NATIVE.tabulated - astimezone and Date.today / fromtimestamp / fromordinal evaluated with super() and the native classes answered by the standard library; the value constructed must be the native answer (a naive result for an aware answer is a different value).'
 )
 
 REQUIRED = {
